@@ -136,23 +136,38 @@ func needsInitCheck(md protoreflect.MessageDescriptor) bool {
 
 func needsInitCheckLocked(md protoreflect.MessageDescriptor) (has bool) {
 	if v, ok := needsInitCheckMap.Load(md); ok {
-		// If has is true, we've previously determined that this message
-		// needs init checks.
-		//
-		// If has is false, we've previously determined that it can never
-		// be uninitialized.
-		//
-		// If has is not a bool, we've just encountered a cycle in the
-		// message graph. In this case, it is safe to return false: If
-		// the message does have required fields, we'll detect them later
-		// in the graph traversal.
-		has, ok := v.(bool)
-		return ok && has
+		if has, ok := v.(bool); ok {
+			return has
+		}
 	}
-	needsInitCheckMap.Store(md, struct{}{}) // avoid cycles while descending into this message
-	defer func() {
-		needsInitCheckMap.Store(md, has)
-	}()
+	// Walk the message graph reachable from md once, breaking cycles with a
+	// set local to this walk. Only definitive answers are cached: the answer
+	// for md itself and, when nothing reachable from md needs an init check,
+	// that same answer for every message visited (each of them reaches a
+	// subset of what md reaches). A message first met through a cycle must
+	// not be cached as false on the strength of a partial traversal.
+	seen := make(map[protoreflect.MessageDescriptor]bool)
+	has = needsInitCheckWalk(md, seen)
+	if has {
+		needsInitCheckMap.Store(md, true)
+	} else {
+		for d := range seen {
+			needsInitCheckMap.Store(d, false)
+		}
+	}
+	return has
+}
+
+func needsInitCheckWalk(md protoreflect.MessageDescriptor, seen map[protoreflect.MessageDescriptor]bool) bool {
+	if seen[md] {
+		return false // already being considered by this walk
+	}
+	if v, ok := needsInitCheckMap.Load(md); ok {
+		if has, ok := v.(bool); ok {
+			return has
+		}
+	}
+	seen[md] = true
 	if md.RequiredNumbers().Len() > 0 {
 		return true
 	}
@@ -166,7 +181,7 @@ func needsInitCheckLocked(md protoreflect.MessageDescriptor) (has bool) {
 			fd = fd.MapValue()
 		}
 		fmd := fd.Message()
-		if fmd != nil && needsInitCheckLocked(fmd) {
+		if fmd != nil && needsInitCheckWalk(fmd, seen) {
 			return true
 		}
 	}
